@@ -6,7 +6,7 @@ import (
 	"io"
 	"runtime/debug"
 	"strings"
-	"sync"
+	"unsafe"
 
 	"github.com/Eyevinn/mp4ff/avc"
 	"github.com/Eyevinn/mp4ff/bits"
@@ -69,16 +69,80 @@ type inapplicable string
 
 func (e inapplicable) Error() string { return "inapplicable: " + string(e) }
 
-// execOp runs one operation, recovering panics.
-func execOp(pl *pool, kind int, in *input, variant int) (r res) {
+// octx is the private context of one executing goroutine: the capacity mode
+// of the current execution, its recycled caller-owned buffers (key, work
+// buffer: guarded on both sides) and the findings of the guards.
+type octx struct {
+	pl *pool
+	// roomy: every caller-owned slice handed to the library in this execution
+	// is a sub-slice with spare capacity of a guarded buffer; otherwise cap == len.
+	roomy bool
+	// direct: shared key material is handed to the library as it is (no private copy)
+	direct bool
+	keybuf [guardLen + 16 + guardLen]byte
+	work   [guardLen + workLen + guardLen]byte
+	finds  []finding
+}
+
+const (
+	guardLen = 32
+	workLen  = 4096
+)
+
+func newOctx(pl *pool) *octx { return &octx{pl: pl} }
+
+// setMode chooses the capacity mode of the next executions from two PRNG bits.
+func (x *octx) setMode(bits uint64) {
+	x.roomy = bits&1 == 1
+	x.direct = bits&6 == 6
+}
+
+// guarded prepares a private caller-owned buffer of n bytes inside buf
+// (guard | n bytes | guard) and returns the view for the current mode and a
+// check to be called after the library had it.
+func (x *octx) guarded(buf []byte, n int, what string) (view []byte, check func()) {
+	for i := 0; i < guardLen; i++ {
+		buf[i] = guardByte(i)
+		buf[guardLen+n+i] = guardByte(i + 11)
+	}
+	if x.roomy {
+		view = buf[guardLen : guardLen+n]
+	} else {
+		view = buf[guardLen : guardLen+n : guardLen+n]
+	}
+	roomy := x.roomy
+	return view, func() {
+		for i := 0; i < guardLen; i++ {
+			if buf[i] != guardByte(i) || buf[guardLen+n+i] != guardByte(i+11) {
+				where := "behind its length (in its spare capacity)"
+				if buf[i] != guardByte(i) {
+					where = "in front of it"
+				}
+				x.finds = append(x.finds, finding{
+					key:    "guard/" + what,
+					what:   fmt.Sprintf("the caller-owned %s (%d bytes, handed to the library with spare capacity: %v) was written outside its length, %s", what, n, roomy, where),
+					detail: map[string]interface{}{"buffer": what, "roomy": roomy},
+				})
+				return
+			}
+		}
+	}
+}
+
+// execOp runs one operation, recovering panics. in is the tight operand of
+// the pool; in roomy mode its twin is used.
+func execOp(x *octx, kind int, in *input, variant int) (r res) {
 	defer func() {
 		if p := recover(); p != nil {
 			st := string(debug.Stack())
 			r = res{h: runner.HashStr("panic", fmt.Sprint(p)), note: "panic: " + fmt.Sprint(p) + " @ " + topFrame(st)}
 		}
 	}()
+	if x.roomy && in.twin != nil {
+		in = in.twin
+	}
 	witness(in)
-	h, err := opFuncs[kind](pl, in, variant)
+	h, err := opFuncs[kind](x, in, variant)
 	witness(in)
 	if err != nil {
 		if _, na := err.(inapplicable); na {
@@ -92,13 +156,38 @@ func execOp(pl *pool, kind int, in *input, variant int) (r res) {
 // witness registers race-detector reads of every shared buffer the operand
 // refers to (before and after the library call).
 func witness(in *input) {
-	witnessRead(in.data)
+	witnessCap(in.data)
 	for _, l := range [][][]byte{in.vps, in.sps, in.pps} {
 		for _, n := range l {
-			witnessRead(n)
+			witnessCap(n)
 		}
+		witnessSlots(l)
 	}
-	witnessRead(in.key)
+	witnessCap(in.key)
+	if m := in.mat; m != nil {
+		witnessCap(m.key)
+		witnessCap(m.iv16)
+		witnessCap(m.iv8)
+		witnessCap(m.kid)
+		witnessCap(m.pssh)
+	}
+}
+
+// witnessCap: the bytes of b and (up to 4 KiB of) its spare capacity.
+func witnessCap(b []byte) {
+	n := cap(b)
+	if n > len(b)+4096 {
+		n = len(b) + 4096
+	}
+	witnessRead(b[:n])
+}
+
+// witnessSlots: the spare slots of a caller-owned list of slices.
+func witnessSlots(l [][]byte) {
+	if cap(l) > len(l) {
+		full := l[:cap(l)]
+		witnessMem(unsafe.Pointer(&full[len(l)]), (cap(l)-len(l))*int(unsafe.Sizeof(full[0])))
+	}
 }
 
 func topFrame(stack string) string {
@@ -119,7 +208,7 @@ func topFrame(stack string) string {
 	return "unknown"
 }
 
-type opFunc func(pl *pool, in *input, variant int) (uint64, error)
+type opFunc func(x *octx, in *input, variant int) (uint64, error)
 
 var opFuncs [nKinds]opFunc
 
@@ -159,7 +248,7 @@ func (p *plainReader) Read(b []byte) (int, error) {
 
 // ---- container level -------------------------------------------------------
 
-func opDecodeR(pl *pool, in *input, variant int) (uint64, error) {
+func opDecodeR(x *octx, in *input, variant int) (uint64, error) {
 	var f *mp4.File
 	var err error
 	if variant == 1 {
@@ -173,7 +262,7 @@ func opDecodeR(pl *pool, in *input, variant int) (uint64, error) {
 	return mix(deepHash(f), f.Size()), nil
 }
 
-func opDecodeSR(pl *pool, in *input, _ int) (uint64, error) {
+func opDecodeSR(x *octx, in *input, _ int) (uint64, error) {
 	f, err := decodeSR(in)
 	if err != nil {
 		return 0, err
@@ -186,7 +275,7 @@ type plainWriter struct{ buf *bytes.Buffer }
 
 func (p plainWriter) Write(b []byte) (int, error) { return p.buf.Write(b) }
 
-func opDecodeLazy(pl *pool, in *input, variant int) (uint64, error) {
+func opDecodeLazy(x *octx, in *input, variant int) (uint64, error) {
 	rs := bytes.NewReader(in.data)
 	f, err := mp4.DecodeFile(rs, mp4.WithDecodeMode(mp4.DecModeLazyMdat))
 	if err != nil {
@@ -203,12 +292,15 @@ func opDecodeLazy(pl *pool, in *input, variant int) (uint64, error) {
 				n = 12
 			}
 			var w bytes.Buffer
-			ws := make([]byte, 4096)
+			// the caller's work buffer: recycled by this goroutine, guarded on both sides
+			ws, wsCheck := x.guarded(x.work[:], workLen, "work-buffer-of-CopySampleData")
 			var dst io.Writer = &w
 			if variant == 1 {
 				dst, ws = plainWriter{&w}, nil
 			}
-			if err := f.CopySampleData(dst, rs, trak, 1, n, ws); err != nil {
+			err := f.CopySampleData(dst, rs, trak, 1, n, ws)
+			wsCheck()
+			if err != nil {
 				return 0, err
 			}
 			h = mix(h, bytesHash(w.Bytes()))
@@ -248,7 +340,7 @@ func opDecodeLazy(pl *pool, in *input, variant int) (uint64, error) {
 	return h, nil
 }
 
-func opBoxR(pl *pool, in *input, variant int) (uint64, error) {
+func opBoxR(x *octx, in *input, variant int) (uint64, error) {
 	var rd io.Reader = bytes.NewReader(in.data)
 	if variant == 1 {
 		rd = &plainReader{r: rd, chunk: 7}
@@ -262,10 +354,85 @@ func opBoxR(pl *pool, in *input, variant int) (uint64, error) {
 	if err := b.Encode(&w); err != nil {
 		return 0, err
 	}
-	return mix(h, bytesHash(w.Bytes())), nil
+	ih, err := inspectBox(b, false)
+	if err != nil {
+		return 0, err
+	}
+	return mix(h, bytesHash(w.Bytes()), ih), nil
 }
 
-func opBoxSR(pl *pool, in *input, _ int) (uint64, error) {
+// inspectBox calls the read-only inspection methods of box types that have
+// them (beyond Info/Size/Type); with build it also puts the box through the
+// descriptor builders of a fresh init segment.
+func inspectBox(b mp4.Box, build bool) (uint64, error) {
+	d := newDeepHasher()
+	switch t := b.(type) {
+	case *mp4.Dac3Box:
+		n, cm := t.ChannelInfo()
+		d.u64(uint64(n))
+		d.u64(uint64(cm))
+		d.u64(uint64(t.BitrateBps()))
+		d.u64(uint64(t.SamplingFrequency()))
+		hashStrs(d, mp4.GetChannelListFromACMod(t.ACMod))
+		if build {
+			init := mp4.CreateEmptyInit()
+			init.AddEmptyTrack(48000, "audio", "und")
+			if err := init.Moov.Trak.SetAC3Descriptor(t); err != nil {
+				return 0, err
+			}
+			var w bytes.Buffer
+			if err := init.Encode(&w); err != nil {
+				return 0, err
+			}
+			d.bytes(w.Bytes())
+		}
+	case *mp4.Dec3Box:
+		n, cm := t.ChannelInfo()
+		d.u64(uint64(n))
+		d.u64(uint64(cm))
+		for _, es := range t.EC3Subs {
+			hashStrs(d, mp4.GetChannelListFromACMod(es.ACMod))
+		}
+		if build {
+			init := mp4.CreateEmptyInit()
+			init.AddEmptyTrack(48000, "audio", "und")
+			if err := init.Moov.Trak.SetEC3Descriptor(t); err != nil {
+				return 0, err
+			}
+			var w bytes.Buffer
+			if err := init.Encode(&w); err != nil {
+				return 0, err
+			}
+			d.bytes(w.Bytes())
+		}
+	case *mp4.StsdBox:
+		for _, c := range t.Children {
+			h, err := inspectBox(c, false)
+			if err != nil {
+				return 0, err
+			}
+			d.u64(h)
+		}
+	case *mp4.AudioSampleEntryBox:
+		for _, c := range t.Children {
+			h, err := inspectBox(c, false)
+			if err != nil {
+				return 0, err
+			}
+			d.u64(h)
+		}
+	}
+	return d.h, nil
+}
+
+func hashStrs(d *deepHasher, l []string) {
+	d.u64(uint64(len(l)))
+	for _, s := range l {
+		d.str(s)
+	}
+}
+
+func opBoxSR(x *octx, in *input, _ int) (uint64, error) {
 	b, err := mp4.DecodeBoxSR(0, bits.NewFixedSliceReader(in.data))
 	if err != nil {
 		return 0, err
@@ -280,10 +447,14 @@ func opBoxSR(pl *pool, in *input, _ int) (uint64, error) {
 	if err := b.Info(&w, "all:1", "", "  "); err != nil {
 		return 0, err
 	}
-	return mix(h, bytesHash(w.Bytes())), nil
+	ih, err := inspectBox(b, true)
+	if err != nil {
+		return 0, err
+	}
+	return mix(h, bytesHash(w.Bytes()), ih), nil
 }
 
-func opInfo(pl *pool, in *input, variant int) (uint64, error) {
+func opInfo(x *octx, in *input, variant int) (uint64, error) {
 	f, err := decodeSR(in)
 	if err != nil {
 		return 0, err
@@ -292,10 +463,22 @@ func opInfo(pl *pool, in *input, variant int) (uint64, error) {
 	if err := f.Info(&w, infoLevels[variant%len(infoLevels)], "", "  "); err != nil {
 		return 0, err
 	}
-	return bytesHash(w.Bytes()), nil
+	h := bytesHash(w.Bytes())
+	if m := moovOf(f); m != nil {
+		for _, trak := range m.Traks {
+			if trak.Mdia != nil && trak.Mdia.Minf != nil && trak.Mdia.Minf.Stbl != nil && trak.Mdia.Minf.Stbl.Stsd != nil {
+				ih, err := inspectBox(trak.Mdia.Minf.Stbl.Stsd, false)
+				if err != nil {
+					return 0, err
+				}
+				h = mix(h, ih)
+			}
+		}
+	}
+	return h, nil
 }
 
-func opEncode(pl *pool, in *input, variant int) (uint64, error) {
+func opEncode(x *octx, in *input, variant int) (uint64, error) {
 	var f *mp4.File
 	var err error
 	if variant&1 == 0 {
@@ -324,7 +507,7 @@ func opEncode(pl *pool, in *input, variant int) (uint64, error) {
 	return mix(bytesHash(w.Bytes()), uint64(w.Len())), nil
 }
 
-func opEncodeSW(pl *pool, in *input, variant int) (uint64, error) {
+func opEncodeSW(x *octx, in *input, variant int) (uint64, error) {
 	var f *mp4.File
 	var err error
 	if variant&1 == 0 {
@@ -364,7 +547,7 @@ func hashFullSamples(fss []mp4.FullSample) uint64 {
 	return d.h
 }
 
-func opFullSamples(pl *pool, in *input, _ int) (uint64, error) {
+func opFullSamples(x *octx, in *input, _ int) (uint64, error) {
 	f, err := decodeSR(in)
 	if err != nil {
 		return 0, err
@@ -410,7 +593,7 @@ func opFullSamples(pl *pool, in *input, _ int) (uint64, error) {
 	return h, nil
 }
 
-func opStbl(pl *pool, in *input, _ int) (uint64, error) {
+func opStbl(x *octx, in *input, _ int) (uint64, error) {
 	f, err := decodeSR(in)
 	if err != nil {
 		return 0, err
@@ -513,34 +696,37 @@ func opStbl(pl *pool, in *input, _ int) (uint64, error) {
 
 // ---- encryption ------------------------------------------------------------
 
-// keyBufs recycles caller-owned key buffers: a key is copied into a pooled
-// buffer, handed to the library, and the buffer is later refilled with a
-// different key by whoever gets it next. A library that keeps a reference to
-// the caller's key slice across calls (hidden state) then sees it change.
-var keyBufs = sync.Pool{New: func() interface{} { return new([16]byte) }}
-
-// withKey runs f with a pooled copy of key whose first byte is varied by
-// variant (so that successive operations use different keys).
-func withKey(key []byte, variant int, f func(k []byte) (uint64, error)) (uint64, error) {
-	kb := keyBufs.Get().(*[16]byte)
-	copy(kb[:], key)
-	kb[15] ^= byte(variant >> 2 & 3)
-	h, err := f(kb[:])
+// withKey runs f with a copy of key in the goroutine's recycled, guarded key
+// buffer; the last byte is varied by variant (so that successive operations
+// use different keys) and the buffer is wiped afterwards and refilled with a
+// different key by the next operation of this goroutine. A library that keeps
+// a reference to the caller's key slice across calls (hidden state) then sees
+// it change. In direct mode an unvaried key is handed over as the shared
+// buffer view itself.
+func withKey(x *octx, key []byte, variant int, f func(k []byte) (uint64, error)) (uint64, error) {
+	delta := byte(variant >> 2 & 3)
+	if x.direct && delta == 0 && len(key) == 16 {
+		return f(key)
+	}
+	kb, check := x.guarded(x.keybuf[:], 16, "key-buffer")
+	copy(kb, key)
+	kb[15] ^= delta
+	h, err := f(kb)
+	check()
 	for i := range kb {
 		kb[i] = 0xA5 // the caller wipes its key buffer after use
 	}
-	keyBufs.Put(kb)
 	return h, err
 }
 
 // opEncrypt: reader-path decode (copies the input, so the documented in-place
 // encryption writes private memory), InitProtect + EncryptFragment, encode;
 // then decode the protected output again, DecryptInit + DecryptSegment.
-func opEncrypt(pl *pool, in *input, variant int) (uint64, error) {
-	return withKey(pl.key.data, variant, func(k []byte) (uint64, error) { return opEncryptKey(pl, in, variant, k) })
+func opEncrypt(x *octx, in *input, variant int) (uint64, error) {
+	return withKey(x, in.mat.key, variant, func(k []byte) (uint64, error) { return opEncryptKey(in, variant, k) })
 }
 
-func opEncryptKey(pl *pool, in *input, variant int, key []byte) (uint64, error) {
+func opEncryptKey(in *input, variant int, key []byte) (uint64, error) {
 	if in.key != nil {
 		return 0, inapplicable("already encrypted")
 	}
@@ -575,18 +761,18 @@ func opEncryptKey(pl *pool, in *input, variant int, key []byte) (uint64, error) 
 	if variant&1 == 1 {
 		scheme = "cbcs"
 	}
-	iv := pl.iv16.data
+	iv := in.mat.iv16
 	if variant&2 == 2 {
-		iv = pl.iv8.data
+		iv = in.mat.iv8
 	}
 	var psshs []*mp4.PsshBox
-	if pl.pssh != nil {
-		psshs, err = mp4.PsshBoxesFromBytes(pl.pssh.data)
+	if in.mat.pssh != nil {
+		psshs, err = mp4.PsshBoxesFromBytes(in.mat.pssh)
 		if err != nil {
 			return 0, err
 		}
 	}
-	ipd, err := mp4.InitProtect(f.Init, key, iv, scheme, mp4.UUID(pl.kid.data), psshs)
+	ipd, err := mp4.InitProtect(f.Init, key, iv, scheme, mp4.UUID(in.mat.kid), psshs)
 	if err != nil {
 		return 0, err
 	}
@@ -637,7 +823,7 @@ func decryptFile(f *mp4.File, key []byte) (uint64, error) {
 	return mix(bytesHash(w.Bytes()), uint64(w.Len())), nil
 }
 
-func opDecrypt(pl *pool, in *input, _ int) (uint64, error) {
+func opDecrypt(x *octx, in *input, _ int) (uint64, error) {
 	if in.key == nil {
 		return 0, inapplicable("no key")
 	}
@@ -648,7 +834,7 @@ func opDecrypt(pl *pool, in *input, _ int) (uint64, error) {
 	if !f.IsFragmented() {
 		return 0, inapplicable("not fragmented")
 	}
-	return withKey(in.key, 0, func(k []byte) (uint64, error) { return decryptFile(f, k) })
+	return withKey(x, in.key, 0, func(k []byte) (uint64, error) { return decryptFile(f, k) })
 }
 
 // ---- video elementary stream helpers ----------------------------------------
@@ -693,7 +879,7 @@ func hevcMaps(in *input) (map[uint32]*hevc.SPS, map[uint32]*hevc.PPS, error) {
 	return spsMap, ppsMap, nil
 }
 
-func opParamSets(pl *pool, in *input, variant int) (uint64, error) {
+func opParamSets(x *octx, in *input, variant int) (uint64, error) {
 	d := newDeepHasher()
 	if in.codec == "avc" {
 		spsMap := map[uint32]*avc.SPS{}
@@ -768,8 +954,8 @@ func opParamSets(pl *pool, in *input, variant int) (uint64, error) {
 	return d.h, nil
 }
 
-func opSlice(pl *pool, in *input, _ int) (uint64, error) {
-	nalus := splitLengthPrefixed(in.data)
+func opSlice(x *octx, in *input, _ int) (uint64, error) {
+	nalus := splitLP(in.data, in.roomy)
 	d := newDeepHasher()
 	n := 0
 	if in.codec == "avc" {
@@ -843,7 +1029,7 @@ func hashSEIMsgs(d *deepHasher, msgs []sei.SEIMessage) error {
 	return nil
 }
 
-func opSEI(pl *pool, in *input, variant int) (uint64, error) {
+func opSEI(x *octx, in *input, variant int) (uint64, error) {
 	d := newDeepHasher()
 	hdr := 1
 	if in.codec == "hevc" {
@@ -918,7 +1104,7 @@ func hashNalus(d *deepHasher, ns [][]byte) {
 // (ConvertSampleToByteStream; ConvertByteStreamToNaluSample when every start
 // code has 4 bytes) run on a private copy; everything else reads the shared
 // buffer directly.
-func opAnnexB(pl *pool, in *input, _ int) (uint64, error) {
+func opAnnexB(x *octx, in *input, _ int) (uint64, error) {
 	d := newDeepHasher()
 	if in.class == "sample" {
 		priv := append([]byte(nil), in.data...)
@@ -969,7 +1155,7 @@ func opAnnexB(pl *pool, in *input, _ int) (uint64, error) {
 	return d.h, nil
 }
 
-func opNalSample(pl *pool, in *input, _ int) (uint64, error) {
+func opNalSample(x *octx, in *input, _ int) (uint64, error) {
 	d := newDeepHasher()
 	b2u := func(b bool) uint64 {
 		if b {
@@ -1013,7 +1199,7 @@ func opNalSample(pl *pool, in *input, _ int) (uint64, error) {
 
 // ---- segment level -----------------------------------------------------------
 
-func opSidx(pl *pool, in *input, variant int) (uint64, error) {
+func opSidx(x *octx, in *input, variant int) (uint64, error) {
 	f, err := decodeSR(in)
 	if err != nil {
 		return 0, err
@@ -1035,7 +1221,7 @@ func opSidx(pl *pool, in *input, variant int) (uint64, error) {
 	return h, nil
 }
 
-func opFragmentify(pl *pool, in *input, variant int) (uint64, error) {
+func opFragmentify(x *octx, in *input, variant int) (uint64, error) {
 	f, err := decodeSR(in)
 	if err != nil {
 		return 0, err
